@@ -506,7 +506,11 @@ def _positional(func, argv):
     return args, kw
 
 
-def verify_contract(world, c, tier="quick", loop_support=None, known=None):
+def n_variants(c):
+    return len(S.expand_oneof(list(c.args.items())))
+
+
+def verify_contract(world, c, tier="quick", loop_support=None, known=None, only_variant=None):
     """returns dict with obligations (verdicts), covers, meta.  Raises EngineError."""
     t_start = time.time()
     timeout = c.timeout_s or (10 if tier == "quick" else 60)
@@ -527,6 +531,8 @@ def verify_contract(world, c, tier="quick", loop_support=None, known=None):
     path_no = [0]
 
     for vi, variant in enumerate(variants):
+        if only_variant is not None and vi != only_variant:
+            continue
         vtag = f"v{vi}." if len(variants) > 1 else ""
 
         def run(ip, variant=variant, vtag=vtag):
@@ -591,6 +597,9 @@ def verify_contract(world, c, tier="quick", loop_support=None, known=None):
             k = path_no[0]
             path_no[0] += 1
             covers["paths"] += 1
+            if pr.kind == "pruned" and not pr.obligations:
+                covers["paths"] -= 1
+                continue
             used_contracts |= pr.used_contracts
             used_inlined |= pr.used_inlined
             ptag = f"{vtag}path{k}"
@@ -691,6 +700,8 @@ def verify_contract(world, c, tier="quick", loop_support=None, known=None):
         out_obls.append(rec)
     meta.update(
         {
+            "scope": c.scope,
+            "dep": c.dep,
             "obligations": out_obls,
             "covers": covers,
             "used_contracts": sorted(used_contracts),
